@@ -327,6 +327,11 @@ type c13Result struct {
 	Faulted []bool      `json:"faulted"` // the interrupted run reported an error
 	Rerun   []*c13State `json:"rerun"`   // state after running the operation again from each crash state
 	RerunOK []bool      `json:"rerunOk"`
+	// a single injected write error at position k (later writes succeed): state when the operation returns
+	ErrStates  []*c13State `json:"errStates"`
+	ErrReported []bool     `json:"errReported"`
+	ErrRerun   []*c13State `json:"errRerun"`
+	ErrRerunOK []bool      `json:"errRerunOk"`
 }
 
 func runWithBudget(op c13Op, db *MemStore, rs ref.Store, left int) (*writeBudget, error) {
@@ -368,6 +373,16 @@ func c13Experiment(seed int64, kind string, snap *repoSnap, extra []*MemStore, o
 			out.RerunOK = append(out.RerunOK, err2 == nil)
 			out.Rerun = append(out.Rerun, n.state(dbk, rsk))
 			closek()
+			// the same position as a single write error instead of a crash
+			dbe, rse, closee := snap.restore()
+			be := &writeBudget{left: k, once: true}
+			erre := op(&faultObjStore{Store: dbe, b: be}, &faultRefStore{Store: rse, b: be})
+			out.ErrReported = append(out.ErrReported, erre != nil)
+			out.ErrStates = append(out.ErrStates, n.state(dbe, rse))
+			_, err3 := runWithBudget(op, dbe, rse, -1)
+			out.ErrRerunOK = append(out.ErrRerunOK, err3 == nil)
+			out.ErrRerun = append(out.ErrRerun, n.state(dbe, rse))
+			closee()
 		}
 		// the universe may have grown (orphans created by re-runs): describe again
 		return Ok(out)
